@@ -94,6 +94,10 @@ def render_pile(prog, width=4, tab=False, ins=None):
             _, _, at, cont, nblank, trail = ins
             t = t[:at] + ' _' + trail + '\n' + '\n' * nblank + ' ' * max(0, width * d + cont) + t[at + 1:]
         line = (('\t' * d) if tab else (' ' * (width * d))) + t
+        if ins and ins[0] == 'mixtab' and ins[1] == i:
+            # width 8: one of the d eight-column groups of this line's indentation is written as k blanks and a tab
+            _, _, k, g = ins
+            line = ''.join((' ' * k + '\t') if j == g else ' ' * 8 for j in range(d)) + t
         if ins and ins[0] == 'trail' and ins[1] == i:
             line += ins[2]
         out.append(line)
@@ -141,6 +145,11 @@ def main(tier):
                 jobs.append((g, '%s@%d' % (name, i), render_pile(prog, ins=('before', i, txt))))
             for name, txt in [('trailsp', '   '), ('trailtab', '\t'), ('trailcom', '  -- c')]:
                 jobs.append((g, '%s@%d' % (name, i), render_pile(prog, ins=('trail', i, txt))))
+            # tab stops: with an indentation unit of 8, each eight-column group written as k blanks + tab, k = 0..7
+            gname = g
+            for tg in range(prog[i][0]):
+                for k in range(8):
+                    jobs.append((gname, 'mixtab%d.%d@%d' % (k, tg, i), render_pile(prog, 8, ins=('mixtab', i, k, tg))))
             # escaped line breaks inside the line: every blank (quick: first and last) x continuation indentation
             # {deeper, same, shallower} x following blank lines {0, 1, 2} x blanks after the underscore
             sp = spaces_outside_strings(prog[i][1])
@@ -195,7 +204,7 @@ def main(tier):
                       cmds=[' '.join(base + ['-Fap=dev.ap', 'm.as']), ' '.join(base + ['-Fap=ref.ap', 'R0.as']), 'cmp dev.ap ref.ap'])
     ck.cov.update({
         'rule': '%d braced sources x (every single inter-token gap x %d deviations + uniform renderings%s) and %d piled sources x (widths 1-8, tabs, 6 kinds of inserted line before and '
-                '3 kinds of trailing text at every line, escaped line breaks at the blanks of every line x continuation indentation x following blank lines); -Fap output must be byte-identical to the canonical rendering; distinct = renderings that parsed identically'
+                '3 kinds of trailing text at every line, every eight-column indentation group written as k blanks and a tab (k = 0..7), escaped line breaks at the blanks of every line x continuation indentation x following blank lines); -Fap output must be byte-identical to the canonical rendering; distinct = renderings that parsed identically'
                 % (len(srcs), len(DEVS), ' + all pairs of gaps for 4 deviations' if tier == 'thorough' else '', len(PILE_PROGS)),
         'renderings': len(jobs),
         'samples': [texts[jobs[3][0], jobs[3][1]][:200], render_pile(PILE_PROGS[1], 2)[:200]],
